@@ -151,7 +151,8 @@ class QuoteKernel(Stream):
 # URL grammar of the property
 
 SCHEMES = ["http", "https", "http", "http", "ftp", "ws", "HTTP", "itms-services", "x-app"]
-HOSTS = ["example.com", "localhost", "EXAMPLE.com", "bücher.example", "xn--bcher-kva.example", "☃.net", "xn--n3h.net", "127.0.0.1", "[::1]", "[2001:db8::1]", "a.b.c", "日本.jp", "xn--zz-invalid-.example", "faß.de"]
+HOSTS = ["example.com", "localhost", "EXAMPLE.com", "bücher.example", "xn--bcher-kva.example", "☃.net", "xn--n3h.net", "127.0.0.1", "[::1]", "[2001:db8::1]", "a.b.c", "日本.jp", "faß.de"]
+BAD_ACE_HOSTS = ["xn--zz-invalid-.example", "xn--a.example", "www.xn--zz.example"]  # known finding F15a
 PORTS = ["", "", "", ":80", ":8080", ":0", ":443", ":65535"]
 USER_EXTRA = ["%40", "%3A", "@", "user", "p%2Fw"]
 PATH_EXTRA = ["/", "/", "/", "//", "%2F", "%3F", "%23", ";v=1", "."]
@@ -166,7 +167,7 @@ def rand_url(rng, malformed=0.0):
         if rng.random() < 0.6:
             parts.append(":" + rand_text(rng, USER_EXTRA, n=rng.choice([0, 1, 2]), malformed=malformed).replace("/", "").replace("?", "").replace("#", "").replace("[", "").replace("]", ""))
         parts.append("@")
-    parts.append(rng.choice(HOSTS))
+    parts.append(rng.choice(BAD_ACE_HOSTS) if rng.random() < 0.01 else rng.choice(HOSTS))
     parts.append(rng.choice(PORTS))
     if rng.random() < 0.9:
         for _ in range(rng.choice([1, 1, 2, 3])):
@@ -268,36 +269,73 @@ class IriUri(Stream):
         from werkzeug.urls import iri_to_uri, uri_to_iri
 
         url = unhs(case["url"])
-        if real_out.startswith("EXC"):
-            try:
-                urlsplit(url).port
-                (urlsplit(url).hostname or "").encode("idna")
-            except (ValueError, UnicodeError):
-                return None  # urlsplit / port / IDNA reject the input: outside the grammar
-            return f"conversion raised {real_out}"
-        u1 = iri_to_uri(url)
+        try:
+            urlsplit(url).port
+            (urlsplit(url).hostname or "").encode("idna")
+        except (ValueError, UnicodeError):
+            return None  # urlsplit / port validation / IDNA encoding reject the input: outside the grammar
+        try:
+            u1 = iri_to_uri(url)
+        except Exception as e:  # noqa: BLE001
+            return f"iri_to_uri raised {type(e).__name__}"
         if not u1.isascii():
             return f"iri_to_uri result is not ASCII: {u1!r}"
         if iri_to_uri(u1) != u1:
             return f"iri_to_uri not idempotent: {u1!r} -> {iri_to_uri(u1)!r}"
-        i1 = uri_to_iri(url)
-        sp0, spu, spi = urlsplit(url), urlsplit(u1), urlsplit(i1)
+        try:
+            i1 = uri_to_iri(url)
+        except Exception as e:  # noqa: BLE001
+            return f"uri_to_iri raised {type(e).__name__}"
+        try:
+            sp0, spu, spi = urlsplit(url), urlsplit(u1), urlsplit(i1)
+            spi.port
+        except ValueError as e:
+            return f"result is not a parseable URL ({e}): uri_to_iri -> {i1!r}"
         for kind, attr in (("path", "path"), ("query", "query"), ("fragment", "fragment")):
-            for sp, name in ((spu, "iri_to_uri"), (spi, "uri_to_iri")):
-                w = meaning_preserved(kind, getattr(sp0, attr), getattr(sp, attr))
-                if w and (name == "uri_to_iri" or unquote_to_bytes(getattr(sp0, attr)) != unquote_to_bytes(getattr(sp, attr))):
-                    return f"{name}: {w}"
+            # iri_to_uri only adds quoting: the unquoted bytes must be unchanged
+            if unquote_to_bytes(getattr(sp0, attr)) != unquote_to_bytes(getattr(spu, attr)):
+                return f"iri_to_uri: {kind}: unquoted bytes changed: {getattr(sp0, attr)!r} -> {getattr(spu, attr)!r}"
+        if not wellformed(url):
+            return None  # a bare '%' is outside the property's '%XX' grammar: nothing further is claimed
+        for kind, attr in (("path", "path"), ("query", "query"), ("fragment", "fragment")):
+            w = meaning_preserved(kind, getattr(sp0, attr), getattr(spi, attr))
+            if w:
+                return f"uri_to_iri: {w}"
         if sp0.username and spi.username is not None:
             w = meaning_preserved("user", sp0.username, spi.username)
             if w:
                 return f"uri_to_iri: {w}"
-        if not wellformed(url):
-            return None  # a bare '%' is outside the property's '%XX' grammar: fixpoints not claimed
-        if uri_to_iri(i1) != i1:
-            return f"uri_to_iri is not a fixpoint after one step: {i1!r} -> {uri_to_iri(i1)!r}"
-        back = uri_to_iri(iri_to_uri(i1))
-        if back != i1:
-            return f"uri_to_iri(iri_to_uri(x)) != x for x = uri_to_iri(url) = {i1!r}: {back!r}"
+        try:
+            i2 = uri_to_iri(i1)
+            n = uri_to_iri(u1)  # the normalised IRI: IRI -> URI -> IRI
+            n2 = uri_to_iri(n)
+            back = uri_to_iri(iri_to_uri(n))
+        except Exception as e:  # noqa: BLE001
+            return f"second conversion of {i1!r} raised {type(e).__name__}"
+        if i2 != i1:
+            return f"uri_to_iri is not a fixpoint after one step: {i1!r} -> {i2!r}"
+        if n2 != n:
+            return f"uri_to_iri is not a fixpoint on the normalised IRI {n!r}: {n2!r}"
+        if back != n:
+            return f"IRI -> URI -> IRI is not stable after one round: {n!r} -> {back!r}"
+        return None
+
+    def finding_key(self, case, what):
+        if what == "uri_to_iri raised UnicodeError":
+            host = urlsplit(unhs(case["url"])).hostname or ""
+            for label in host.split("."):
+                if label.startswith("xn--"):
+                    try:
+                        label.encode("ascii").decode("idna")
+                    except UnicodeDecodeError:
+                        pass
+                    except UnicodeError:
+                        return "F15a"
+        if what.startswith("result is not a parseable URL ("):
+            sp = urlsplit(unhs(case["url"]))
+            info = (sp.username or "") + (sp.password or "")
+            if re.search("%5[BbDd]", info):
+                return "F15b"
         return None
 
     def nontrivial(self, case, real_out):
